@@ -18,7 +18,7 @@ RULE = ('histories = every valid sequence up to depth D over {B(i): build model 
         'variants); composed API potentials used as operands after evaluation; OUTPUT_FILE = /dev/stdout in a pipe; THREAD SCHEDULES: two real threads '
         'tabulating at once under a cooperative scheduler - (a) switch points = evaluations of the model functions, every schedule with <= 2 '
         'pre-emptions (A at its i-th, B at its j-th evaluation) for 14 target pairs, (b) switch point = any traced line of the library, one '
-        'pre-emption (B runs to completion), also with both threads writing ONE tabulation object')
+        'pre-emption (B runs to completion), also with both threads writing ONE tabulation object; PROCESS ENVIRONMENT: every model (and the potable command line) in fresh processes run with python -O, -OO, with logging configured at DEBUG / ERROR by the embedding application, and both: same bytes, same probe values; PROCESS STATE: after every operation of every history the process-wide state (numpy error mode and print options, recursion limit, cwd, decimal context, locale, logging levels, umask, sys.stdout) is what it was before')
 ASSUMPTIONS = [
     'set-order seam: module-level name `set` injected into config/_eam_potential_builder, _dlpoly_writeTABEAM, config/_config_parser, config/_tabulation_factories; a set built elsewhere whose order reaches the output is only covered by the hash-seed runs',
     'hash seeds {0,1,2,3,5,8,13,21,34,random}: the seeds control iteration order, all orders of the covered sets are enumerated by the seam',
@@ -211,7 +211,7 @@ CLI_ARGS = ['-a', 'Pair:Th-O=as.lj 0.2 2.5', '-a', 'Pair:Th-Th=as.morse 1.8 2.0 
 _CLI = {}
 
 
-def cli_run(seed):
+def cli_run(seed, **env):
     """potable command line with several --add-item / conflicting --override-item options in a fresh process"""
     import tempfile
     if 'cfg' not in _CLI:
@@ -220,7 +220,7 @@ def cli_run(seed):
         with open(_CLI['cfg'], 'w') as f:
             f.write(MODELS['pairB'][0])
     out = tempfile.mktemp(dir=os.path.dirname(_CLI['cfg']), suffix='.out')
-    rc, so, se = seams.fresh_process([os.path.join(boot.VERIF, 'tools', 'potable_main.py'), _CLI['cfg'], out] + CLI_ARGS, hashseed=seed)
+    rc, so, se = seams.fresh_process([os.path.join(boot.VERIF, 'tools', 'potable_main.py'), _CLI['cfg'], out] + CLI_ARGS, hashseed=seed, **env)
     data = None
     if os.path.exists(out):
         with open(out) as f:
@@ -311,6 +311,8 @@ def cases(tier):
     _CLI['ref'] = cli_run('0')
     for seed in ('1', '2', '3', '5', '8', '13', '21', '34', 'random', '4'):
         out.append(dict(kind='hashseed-cli', seed=seed))
+    for env in PROCENVS:
+        out.append(dict(kind='hashseed-cli', seed='0', env=env))
     return out
 
 
@@ -439,13 +441,13 @@ def run_clock(case):
 
 def run_hashseed_cli(case):
     viol = []
-    rc, data, err = cli_run(case['seed'])
+    rc, data, err = cli_run(case['seed'], **case.get('env', {}))
     rrc, rdata, _e = _CLI['ref']
     if rrc != 0 or not rdata:
         viol.append(dict(sig='harness:cli-reference-failed', msg='reference potable run failed: %r %s' % (rrc, _e), detail={}))
     elif (rc, data) != (rrc, rdata):
-        viol.append(dict(sig='cli-output-depends-on-hash-seed', msg='potable %s under PYTHONHASHSEED=%s: exit %r, %s bytes; under seed 0: exit %r, %d bytes (first difference at %s)'
-                         % (' '.join(CLI_ARGS), case['seed'], rc, len(data or ''), rrc, len(rdata), first_diff(data or '', rdata)), detail={}))
+        viol.append(dict(sig='cli-output-depends-on-hash-seed', msg='potable %s under PYTHONHASHSEED=%s%s: exit %r, %s bytes; under seed 0: exit %r, %d bytes (first difference at %s)'
+                         % (' '.join(CLI_ARGS), case['seed'], ' and %r' % case['env'] if case.get('env') else '', rc, len(data or ''), rrc, len(rdata), first_diff(data or '', rdata)), detail={}))
     return dict(outcome='ok:hashseed-cli' if not viol else 'violation', nontrivial=True, evals=1, violations=viol, states=['hashseed-cli'], transitions=1, traces=1)
 
 
